@@ -33,6 +33,7 @@ NoHon == [set |-> FALSE]
 
 -----------------------------------------------------------------------------
 (* ELet = eager let (module Num): the bound value is computed once *)
+Short(s) == IF Len(s) > 12 THEN SubSeq(s, 1, 12) ELSE s          \* long index vectors are abbreviated in messages
 ProveStep(l0, e) ==
   LET n    == Len(e.pidx)
       idx  == 1 .. n
@@ -45,13 +46,13 @@ ProveStep(l0, e) ==
   ELet(Affs(e.cs_after), LAMBDA after :
   ELet(IF Has(e, "panic") \/ e.err THEN [none |-> TRUE] ELSE MPProve(TNew(e.label), Cfg, AP, ops), LAMBDA ref :
     LET bad0 == IF Has(e, "panic") THEN <<Dev(l0, "C01", <<"CreateMultiProof panicked", e.panic>>, sig("panic"))>>
-                ELSE IF e.err THEN <<Dev(l0, "C01", <<"CreateMultiProof failed on honest openings", n, e.zs>>, sig("error"))>>
+                ELSE IF e.err THEN <<Dev(l0, "C01", <<"CreateMultiProof failed on honest openings", n, Short(e.zs)>>, sig("error"))>>
                 ELSE
                   One(AllValid(e.cs_after) /\ \A i \in idx : e.cs_after[i][3] = N1 /\ EEq(after[i], IAff(e.cs_before[i])), l0, "C13",
                       "CreateMultiProof changed a commitment beyond re-normalising it", sig("commitments")) \o
                   One(\A i \in idx : EEq(after[i], ops[i].C), l0, "C05", "a commitment differs from sum f_i G_i", sig("commit")) \o
                   One(e.bytes = CWriteMP([D |-> ref.D, ipa |-> ref.ipa]), l0, "C03",
-                      <<"serialised multiproof differs from the specification's proof", n, e.zs, e.numcpu, e.gomaxprocs>>, sig("bytes")) \o
+                      <<"serialised multiproof differs from the specification's proof", n, Short(e.zs), e.numcpu, e.gomaxprocs>>, sig("bytes")) \o
                   One(e.next = TChallengeValue(ref.tr, LState), l0, "C03", <<"prover transcript state differs from the specification's", n>>, sig("transcript")) \o
                   One(~e.write_err, l0, "C10", "Write failed on a bytes.Buffer", sig("write"))
         bad1 == One(e.inputs_unchanged, l0, "C13", "CreateMultiProof modified polynomials or indices", sig("inputs")) \o
@@ -85,7 +86,7 @@ VerifyDevs(l0, e) ==
           <<"CheckMultiProof disagrees with the reference verifier", e.what, e.to, [code |-> <<e.ok, e.err>>, reference |-> <<ref.ok, ref.err>>]>>, sig("agreement")) \o
       One(~(e.ok /\ e.err), l0, "C02", "true returned together with an error", sig("ok-and-error")) \o
       (IF hon.set /\ e.what = "none"
-       THEN One(e.ok /\ ~e.err, l0, "C01", <<"honest multiproof rejected", hon.n, hon.zs>>, <<"verify", "honest", "rejected">>) \o
+       THEN One(e.ok /\ ~e.err, l0, "C01", <<"honest multiproof rejected", hon.n, Short(hon.zs)>>, <<"verify", "honest", "rejected">>) \o
             One(e.ok => e.next = hon.next, l0, "C01", "prover and verifier transcripts yield different next challenges", <<"verify", "honest", "transcript">>)
        ELSE <<>>) \o
       (IF differs
